@@ -162,6 +162,9 @@ pub struct TypeChecker {
     pub(crate) type_info: TypeCheckInfo,
     /// Public exports for imported dependency modules, keyed by module name.
     pub(crate) dependency_exports: HashMap<String, Vec<ExportedSymbol>>,
+    /// Parameters with a default value, per callable declared in this module (`name` or `Type.method`).
+    /// A callable without an entry (builtin, imported) has an unknown set and is not checked for missing arguments.
+    pub(crate) param_defaults: HashMap<String, HashSet<String>>,
 }
 
 impl TypeChecker {
@@ -179,6 +182,7 @@ impl TypeChecker {
             const_eval_cache: HashMap::new(),
             type_info: TypeCheckInfo::default(),
             dependency_exports: HashMap::new(),
+            param_defaults: HashMap::new(),
         }
     }
 
